@@ -48,9 +48,12 @@ def dfa_events(src):
     D = gen.build_dfa(src)
     if D.Q & {"start", "accept"}:
         return
+    from gambatools import _verif
     pre = ab.dfa(D)
+    _verif.take()
     r, exc = guarded(lambda: dfa_to_regexp(D), 30)
-    ev = {"op": "dfa_to_re", "fa": pre, "exc": exc, "src": src}
+    order = [ab.enc(t["q"]) for t in _verif.take() if t["ev"] == "rip"]
+    ev = {"op": "dfa_to_re", "fa": pre, "exc": exc, "src": src, "rip_order": order}
     if exc == "none":
         ev["res"] = ab.regexp(r)
     yield ev
@@ -98,8 +101,28 @@ def nontrivial(e):
     return len(e["fa"]["Q"]) >= 2
 
 
+def rip_orders(res, done):
+    """which elimination orders (as permutations of the sorted state names) were observed"""
+    import json
+    seen = {}
+    for _, path, _ in done:
+        with open(path) as f:
+            for ln in f:
+                if '"dfa_to_re"' not in ln:
+                    continue
+                e = json.loads(ln)
+                Q = sorted(e["fa"]["Q"])
+                if len(Q) in (2, 3) and len(e.get("rip_order", [])) == len(Q):
+                    perm = tuple(Q.index(q) for q in e["rip_order"])
+                    seen.setdefault(len(Q), {}).setdefault(str(perm), 0)
+                    seen[len(Q)][str(perm)] += 1
+    res.notes["elimination_orders_observed"] = {"by_number_of_states": seen,
+                                                "note": "GnfaRip.tla checks ALL orders; the hook reports which ones the hash "
+                                                        "seeds and naming schemes of this run produced"}
+
+
 def check(tier, seed):
-    return base.standard_check(PID, tier, seed, tasks(tier, seed), MODELS[tier], RULE, nontrivial,
+    return base.standard_check(PID, tier, seed, tasks(tier, seed), MODELS[tier], RULE, nontrivial, extra=rip_orders,
                                assumptions=["DFA state names other than 'start'/'accept' (the code asserts this)",
                                             "single-character symbols"])
 
